@@ -6,7 +6,8 @@ RULE = ("interleavings of k worker puts, collector steps (flag test / pop) and t
         "model's transition system (all maximal interleavings with at most one idle collector cycle, k <= 2 quick / k <= 3 thorough) "
         "plus random schedules up to k = 6 (quick) / 8, plus two schedules in which the collector thread is starved for 1.4 s / 2.3 s after the stop request; each schedule is replayed on the real _ProgressBars with instrumented "
         "queue/event objects under a deterministic scheduler and evaluated in the Coq model; non-trivial = the stop request falls "
-        "while a result is still queued or un-popped; distinct = the schedule")
+        "while a result is still queued or un-popped; distinct = the schedule; end to end: 24 (quick) / 64 one-gene chromosomes through the CLI with 16 workers, "
+        "and 8 chromosomes in an output directory that holds partial overlap files of a killed run: one result file per chromosome whenever the exit status is 0")
 
 
 def mirror_step(s, a):
@@ -76,6 +77,36 @@ def complete(s, k):
 
 def to_coq(s):
     return "[" + "; ".join("W %d" % a[1] if a[0] == "W" else a[0] for a in s if a[0] != "S") + "]"
+
+
+def e2e_case(nchr):
+    case = {"genes": [], "tes": [], "windows": [100, 100, 200]}
+    for i in range(nchr):
+        # half of the ids are scaffold-like: several underscore-separated tokens, the last one shared
+        c = "c%02d" % i if i % 2 == 0 else "c%02d_KI2707%02dv1_random" % (i // 2 % 3, i)
+        case["genes"].append({"name": c + "_g", "chrom": c, "start": 500, "stop": 700, "strand": "+"})
+        case["tes"].append({"chrom": c, "start": 300 + i, "stop": 450 + i, "order": "LTR", "superfam": "Gypsy", "strand": "+"})
+    return case
+
+
+def leftover_run(nchr, left_idx):
+    """CLI run in an output directory that already holds partial overlap files (a run killed while overlap workers were writing)"""
+    import os, shutil, tempfile
+    small = e2e_case(nchr)
+    chroms = [g["chrom"] for g in small["genes"]]
+    left = [chroms[i] for i in left_idx]
+    d = tempfile.mkdtemp(prefix="vhc11_")
+    try:
+        ov = os.path.join(d, "out", "tmp", "overlap")
+        os.makedirs(ov)
+        for c in left:
+            with open(os.path.join(ov, "partial_G_%s_overlap.h5" % c), "wb") as f:
+                f.write(b"\x89HDF\r\n\x1a\n" + b"\0" * 600)
+        rep = cli.run_case_cli(small, nproc=4, keep=d, timeout=300)
+        got = sorted(f["chrom"] for f in rep["files"] if f.get("chrom"))
+        return rep, got, sorted(chroms), left
+    finally:
+        shutil.rmtree(d, ignore_errors=True)
 
 
 def run(chk):
@@ -156,27 +187,39 @@ def run(chk):
     chk.cov["enumerated_interleavings"] = n_ex
     # end-to-end: many one-gene chromosomes through the CLI; one result file per chromosome
     nchr = 24 if chk.tier == "quick" else 64
-    case = {"genes": [], "tes": [], "windows": [100, 100, 200]}
-    for i in range(nchr):
-        # half of the ids are scaffold-like: several underscore-separated tokens, the last one shared
-        c = "c%02d" % i if i % 2 == 0 else "c%02d_KI2707%02dv1_random" % (i // 2 % 3, i)
-        case["genes"].append({"name": c + "_g", "chrom": c, "start": 500, "stop": 700, "strand": "+"})
-        case["tes"].append({"chrom": c, "start": 300 + i, "stop": 450 + i, "order": "LTR", "superfam": "Gypsy", "strand": "+"})
+    case = e2e_case(nchr)
     for rnd in range(1 if chk.tier == "quick" else 4):
         rep = cli.run_case_cli(case, nproc=16, timeout=300)
         chk.cov["evaluations"] += 1
         chk.count("cli_runs_%d_chromosomes" % nchr)
         got = sorted(f["chrom"] for f in rep["files"] if f.get("chrom"))
         if rep["rc"] == 0 and got != sorted(set(g["chrom"] for g in case["genes"])):
-            chk.violation("CLI exit 0 but %d result files for %d chromosomes" % (len(got), nchr), {"case": "generated: %d one-gene chromosomes" % nchr, "files": got})
+            chk.violation("CLI exit 0 but %d result files for %d chromosomes" % (len(got), nchr), {"e2e_nchr": nchr, "files": got})
         if rep["rc"] != 0:
-            chk.violation("CLI run with %d chromosomes failed (exit %s)" % (nchr, rep["rc"]), {"log": rep["log"][-1500:]})
+            chk.violation("CLI run with %d chromosomes failed (exit %s)" % (nchr, rep["rc"]), {"e2e_nchr": nchr, "log": rep["log"][-1500:]})
+    # an output directory in which an earlier run was killed while overlap workers were writing: their partial files are still there
+    for left_idx in ([1], [2, 3, 4, 5]):
+        rep, got, want, left = leftover_run(8, left_idx)
+        chk.cov["evaluations"] += 1
+        chk.count("cli_runs_with_leftover_partial_overlap_files")
+        if rep["rc"] == 0 and got != want:
+            chk.violation("CLI exit 0 but %d result files for %d chromosomes in a directory holding partial overlap files of a killed run" % (len(got), len(want)),
+                          {"leftover": {"nchr": 8, "left_idx": left_idx}, "leftover_partial_for": left, "files": got})
     chk.sample({"k": jobs[0][0], "schedule": jobs[0][1], "collected": real[0] and real[0]["collected"]})
     chk.sample({"k": jobs[-1][0], "schedule": jobs[-1][1], "collected": real[-1] and real[-1]["collected"]})
     return chk.finish(rule=RULE)
 
 
 def replay(chk, rp):
+    if "leftover" in rp:
+        rep, got, want, left = leftover_run(rp["leftover"]["nchr"], rp["leftover"]["left_idx"])
+        print(json.dumps({"rc": rep["rc"], "result_files_for": got, "chromosomes": want, "partial_files_left_for": left}, indent=1))
+        return 1 if (rep["rc"] == 0 and got != want) else 0
+    if "e2e_nchr" in rp:
+        rep = cli.run_case_cli(e2e_case(rp["e2e_nchr"]), nproc=16, timeout=300)
+        got = sorted(f["chrom"] for f in rep["files"] if f.get("chrom"))
+        print(json.dumps({"rc": rep["rc"], "result_files": len(got), "chromosomes": rp["e2e_nchr"]}, indent=1))
+        return 1 if (rep["rc"] != 0 or len(got) != rp["e2e_nchr"]) else 0
     rep = pool.run_requests([{"op": "collector.replay", "k": rp["k"], "schedules": [rp["schedule"]]}])[0]
     rr = rep["runs"][0]
     bad = sorted(rr["collected"]) != list(range(rp["k"]))
